@@ -1,4 +1,5 @@
 import Martian.Model.Mitm
+import Martian.Lemmas.MitmHost
 /-!
 Helper lemmas for C06 (core Lean only): second-truncation arithmetic, the port-stripped host has
 no `[`, a freshly issued certificate matches its host, the cache invariant and its preservation by
@@ -107,25 +108,30 @@ theorem stripBrackets_of_head {h : Bytes} (hh : h.head? ≠ some lbr) : stripBra
 
 /-! ### a fresh certificate names its host -/
 
-theorem matchName_self {h : Bytes} (h1 : h ≠ []) (h2 : h ≠ [dot]) : matchName h h = true := by
-  unfold matchName
-  cases h with
-  | nil => exact absurd rfl h1
-  | cons x xs => simp [h2]
-
-theorem matchesHost_issue (cfg : Config) {host : Bytes} (now : Int) (n : Nat)
+/-- `VerifyHostname` looks at the SAN only: a certificate carrying the SAN the template builds for
+`host` names `host`. -/
+theorem verifyHostname_of_san {c : Cert} {host : Bytes} (hsan : (c.names, c.ips) = sanFor host)
     (h1 : host ≠ []) (h2 : host ≠ [dot]) (h3 : host.head? ≠ some lbr) :
-    matchesHost (issue cfg host now n) host = true := by
-  unfold matchesHost
+    verifyHostname c host = true := by
+  unfold verifyHostname
   rw [stripBrackets_of_head h3]
   cases hp : parseIP host with
-  | some ip => simp [issue, sanFor, hp]
-  | none => simp [issue, sanFor, hp, matchName_self h1 h2]
+  | some ip =>
+    simp only [sanFor, hp, Prod.mk.injEq] at hsan
+    simp [hsan.2]
+  | none =>
+    simp only [sanFor, hp, Prod.mk.injEq] at hsan
+    simp [hsan.1, matchDNS_self h1 h2]
+
+theorem verifyHostname_issue (cfg : Config) {host : Bytes} (now : Int) (n : Nat)
+    (h1 : host ≠ []) (h2 : host ≠ [dot]) (h3 : host.head? ≠ some lbr) :
+    verifyHostname (issue cfg host now n) host = true :=
+  verifyHostname_of_san (by simp [issue]) h1 h2 h3
 
 theorem verifiesFor_issue (cfg : Config) {host : Bytes} (now : Int) (n : Nat)
     (hv : 1000 ≤ cfg.validity) (h1 : host ≠ []) (h2 : host ≠ [dot]) (h3 : host.head? ≠ some lbr) :
     verifiesFor (issue cfg host now n) host now = true := by
-  have hm := matchesHost_issue cfg now n h1 h2 h3
+  have hm := verifyHostname_issue cfg now n h1 h2 h3
   have hw := inWindow_issue cfg host now n hv
   unfold verifiesFor
   rw [hm, hw]
